@@ -7,6 +7,51 @@ HERE = os.path.dirname(os.path.dirname(os.path.abspath(__file__)))
 SCOPE_NOTE = "quick: all 818 976 grammars of G(2,2,3,3) (2 nonterminals, 2 terminals, <=3 productions of length <=3; unreachable, unproductive, nullable, cyclic, ambiguous ones included) plus the 1-edit neighbourhoods of 11 seed grammars (LALR-not-SLR, LR(1)-not-LALR, dangling else, expression grammars, ...); thorough adds G(2,3,4,2), G(3,2,4,2), G(2,2,4,3)/sym, G(1,3,4,3), G(3,3,3,2)/sym and 2-edit neighbourhoods. Every grammar is rendered under a rotating presentation (struct/enum, named/tuple, `_` fields, declaration order, naming order)."
 REAL_NOTE = "Real-code layer: every accepted grammar of G(2,2,3,2)/sym (quick; thorough: G(2,2,3,2), G(1,2,3,3), G(2,2,2,3), G(2,3,3,2), G(3,2,3,2), 1-edit neighbourhoods of the seeds) is emitted by the real generate, compiled by rustc and its real parse is run on every word of the input trie (depth 7 for 2 terminals) through a lazy counting iterator, a constant-payload iterator and a Vec, under catch_unwind with a time limit. Model layer: an interpreter of the tables and reduce-function facts extracted from the emitted text explores all configurations over the tries of every accepted grammar of the C04 scopes in lock-step with the reference LR(1) driver and Earley; it is bound to the code by comparing its trace with the real observation on every (grammar, word) of the real-code scope; if it diverges or cannot be extracted it is declared unbound and only the real layer decides."
 CHECKS = {
+ "C07": ("E1+E4 totality sweep", "exploration",
+         "bounded-exhaustive exploration of four input families through the real generate in child processes with a per-input watchdog, plus bound probes",
+         "No panic, abort or hang on: (a) every string of <=5 (quick) / <=7 (thorough) symbols over a 28-symbol alphabet (one representative per lexer character class and UTF-8 length); (b) every viable token-kind prefix of the Kiki grammar to depth 13 / 16 and every one-token extension, rendered to text; (c) every file of <=3 / <=4 items over the 104-item alphabet of C10 (all combinations of static violations); (d) every grammar of the C04 scopes (variant-less enums, no terminals, unreachable/unproductive nonterminals); (e) 25 bound probes at the stated bounds (2000 declarations, 64 KiB, nesting 256), each in its own process. A child that dies is re-run sequentially in trace mode to attribute the abort to an input.",
+         "Between the small scopes and the bound probes the claim rests on the small-scope hypothesis; a probe that exceeds its time limit is inconclusive, never a violation (the automaton construction is polynomial of high degree).",
+         "DESIGN.md section 3, C07"),
+ "C08": ("E4 textsweep", "exploration",
+         "bounded-exhaustive exploration of all strings over a symbol alphabet; oracle: independent reference lexer (R-lex)",
+         "Every string of <=5 (quick) / <=7 (thorough) symbols over the 28-symbol alphabet, plus the repository's grammar files and hand-picked maximal-munch / attribute cases: if R-lex tokenises the string, the real tokenizer (hook) must return the same (kind, text, position) vector and generate must not report a lexical error; if R-lex rejects at (i, c), both must report exactly Lex(i, c).",
+         "R-lex (appendix B) is the reading of the documented rules; longer strings rest on the small-scope hypothesis (9-state tokenizer).",
+         "DESIGN.md section 3, C08"),
+ "C09": ("E4 textsweep", "model_checking",
+         "explicit-state exploration of the front-end parser's input trie (viable-prefix DFS with Earley over the hand-transcribed Kiki grammar), every node executed through the real generate; plus table isomorphism of parser.rs",
+         "Every viable token-kind prefix to depth 15 (quick) / 18 (thorough) and every one-token extension is rendered to text (two lexeme lengths per kind, rotating separators and comments) and given to generate: sentence <=> neither Lex nor Parse error; otherwise Parse(start, text, end) of the first non-viable token, or Parse(len, \"\", len) for a proper prefix. Earley is cross-checked against a recursive-descent reference on every text. Structural complement: ACTION/GOTO tables extracted from the checked-in parser.rs are isomorphic to the reference LALR(1) tables of the grammar (67 states).",
+         "R-kiki: the grammar transcribed by hand from parser.kiki (42 productions); beyond the depth bound the claim rests on the table isomorphism and the LR theorem.",
+         "DESIGN.md section 3, C09"),
+ "C10": ("E4 textsweep", "exploration",
+         "bounded-exhaustive exploration of all small files over an item alphabet; oracle: reference validator computing the set of all violations (membership)",
+         "Every file of <=3 (quick, 1.1e6 files) / <=4 (thorough, 1.2e8 files) items over a 104-item alphabet (start / terminal / struct / enum declarations over small name pools incl. other-namespace names, duplicates, wrong capitalisation, near-miss variant lists) plus the repository's should-fail corpus: Ok only if the violation set is empty; a validation error must be a member of the set with matching variant, name / symbol sequence and byte positions.",
+         "R-validate implements the catalogue of appendix C; TableConflict on a file with violations is not constrained by the statement.",
+         "DESIGN.md section 3, C10"),
+ "C12": ("E4 textsweep", "exploration",
+         "bounded-exhaustive exploration of all attribute bodies over a symbol alphabet; differential oracle (strip attributes, generate, re-insert)",
+         "Every attribute body of <=4 symbols (quick; thorough <=6 single, <=5 in all placements) over ( ) [ ] { } a space \" # / $ e-acute euro emoji newline, before a struct, an enum and the terminal declaration, alone, with a trailing comment, without line break, and with a second attribute in both orders: for balanced bodies, generate(source) equals generate(source without attributes) with each declaration's attributes inserted as lines immediately before its `pub struct|enum` (verbatim, right place, right order, nowhere else); otherwise exactly the Lex error of C08.",
+         "the emitted definition line starts with `pub struct NAME` / `pub enum NAME`; if not found the oracle reports 'not applicable', never a violation.",
+         "DESIGN.md section 3, C12"),
+ "C13": ("E4 textsweep (+E3)", "exploration",
+         "bounded-exhaustive exploration of all type expressions up to a nesting bound; every use site in the emitted text re-tokenised and compared; rustc for real types",
+         "All type expressions of nesting depth <=2 over unit, paths of 1-3 segments and generic callees with 1-2 arguments (1.3e3 quick / 4.6e4 thorough) plus a chain of deeper nestings, spelt with rotating whitespace and comments, each declared as a terminal payload in a grammar exposing 12 use sites (terminal enum, named/tuple fields of a struct and of enum variants, node enum, helper functions): every located occurrence must equal the declaration token for token. For 11 real Rust types rustc asserts type identity at every public use site.",
+         "token equality is tested on the whitespace-free concatenation of tokens (unambiguous for this syntax).",
+         "DESIGN.md section 3, C13"),
+ "C14": ("E5 permexplore", "model_checking",
+         "stateless exploration of all hash-iteration-order schedules within a deviation bound, through an order-controllable HashMap/HashSet seam, on the real generate",
+         "Every iteration over a hash collection is a choice point (the seam offers no un-instrumented way to iterate). For each input: identity schedule twice (must agree), then every alternative at each choice point (all n! orders up to a cap, else adjacent transpositions + reversal + rotations), deviation bound 1 (quick) / 2 (thorough); a replayed prefix that passes different choice points is a machinery error. Corpus: repository files incl. should-fail, grammars with conflicts in several states, G(2,2,3,2), and all 1.1e6 invalid files of <=3 items with >=2 simultaneous violations. Oracle: byte-identical RustSrc / identical Debug of the error. A free-running pass with the real RandomState in 8 child processes is supplementary sampling.",
+         "hash collections reach kiki only through the cfg-switched imports (a source scan reports bypasses in the evidence).",
+         "DESIGN.md section 3, C14"),
+ "C15": ("E4 textsweep", "exploration",
+         "bounded-exhaustive exploration of all short texts over a line alphabet vs. a direct implementation of the stated rule; round trip with an independent SHA-256",
+         "(a) every text of <=4 (quick) / <=5 (thorough) lines over a 16-line alphabet x {LF, CRLF, unterminated last line}: get_grammar_hash equals the reference rule; (b) for every accepted source of the corpus (repository examples, G(2,2,3,2), in up to 7 layouts) the emitted text begins with a // header containing the digest and get_grammar_hash(generate(src)) == R-sha256(src); (c) distinct sources carry distinct stored digests.",
+         "a line ends at LF or CRLF; R-sha256 is checked against FIPS vectors at start-up.",
+         "DESIGN.md section 3, C15"),
+ "C16": ("E4 textsweep", "exploration",
+         "bounded-exhaustive exploration of re-layouts by deviation from the canonical layout; oracle: result equality with error positions mapped through the token correspondence",
+         "For 79 (quick) / ~280 (thorough) base sources (repository files incl. should-fail and parser.kiki, conflict grammars, texts with parse and validation errors of every kind, samples of G(2,2,3,2)): the original layout, all uniform layouts over a 10-element gap alphabet (LF, CRLF, tab, U+2003, comments incl. one with a bare CR, nothing) and every layout differing from the canonical one in 1 gap (quick) / 2 gaps (thorough, <=60 tokens); Ok outputs equal modulo the hash line; errors equal with every ByteIndex sharing a descriptor (start / start+1 / end of token k, source length) between the two layouts.",
+         "a re-layout is defined by R-lex token equality; sources that do not lex have no re-layouts.",
+         "DESIGN.md section 3, C16"),
  "C05": ("E3 rustc compile-only", "exploration",
          "bounded-exhaustive exploration of the naming space by deviation from a conventional naming; rustc --emit=metadata decides",
          "Every (role, name) pair (deviation 1, quick) and every pair of such assignments over the curated pool (deviation 2, thorough) over six carrier grammars (enum-rooted, struct-rooted, epsilon+recursion, no terminals, variant-less start, unit-like start); roles: terminal enum, terminals, nonterminals, variants, named fields; name pools: the generator's own helper names and their uniquified forms, letter-less names, plus a pool harvested mechanically from the emitted text, so a helper added later enters by itself; payload type `crate::P` has no derives at all. rustc's full type and borrow check must report no error in the module.",
